@@ -163,3 +163,117 @@ def run_scenario(sc, strategy, line_level=False, max_steps=8000):
     return {'events': ev, 'deadlock': s.deadlock, 'livelock': s.livelock,
             'choices': [c for _, c in s.choices], 'raw_choices': list(s.choices),
             'thread_exc': {n: repr(t.exc) for n, t in s.threads.items() if t.exc is not None}}
+
+
+def run_cache_scenario(sc, strategy, line_level=False, max_steps=8000):
+    """C05, concurrent part: worker threads act on one module's parameters (driver reads that succeed / raise,
+    writes, attribute assignments, explicit error announcements) while 1-2 connections are activated.
+    sc: dict(workers=[[(op, param, arg)...], ...], omit=seconds)
+    Every update message is mapped back to the cache state (version) it carries; a message that carries a
+    state the cache never held gets version -2."""
+    w = World(strategy, line_level, max_steps)
+    from frappy.errors import HardwareError, RangeError
+    s = w.sched
+    versions = {}           # (p, content) -> latest version number
+    counter = {'v': 0}
+    with w.patch:
+        w.build(['c1', 'c2'])
+        disp = w.dispatcher
+        m = w.mods['m1']
+        for pname in ('p1', 'p2'):
+            m.parameters[pname].omit_unchanged_within = sc.get('omit', 0)
+        script = {}
+
+        def content(pobj):
+            if pobj.readerror:
+                return ('E', type(pobj.readerror).__name__, str(pobj.readerror), pobj.timestamp or None)
+            return ('V', pobj.export_value(), pobj.timestamp or None)
+
+        def announce_update(moduleobj, pobj):
+            counter['v'] += 1
+            p = f'{moduleobj.name}:{pobj.export}'
+            versions[p, content(pobj)] = counter['v']
+            s.log(ev='store', p=p, pm=moduleobj.name, v=counter['v'])
+            disp.broadcast_event(w.dp.make_update(moduleobj.name, pobj))
+        for mod in w.mods.values():
+            mod.updateCallback = announce_update
+
+        class VConn(SConn):
+            def send_reply(self, msg):
+                if s.me() is not None and not s.aborting:
+                    s.yield_('send')
+                self.msgs.append(msg)
+                if msg[0] in ('update', 'error_update'):
+                    p = msg[1]
+                    if msg[0] == 'update':
+                        c = ('V', msg[2][0], msg[2][1].get('t'))
+                    else:
+                        c = ('E', msg[2][0], msg[2][1], msg[2][2].get('t'))
+                        # error class name on the wire vs python class name
+                        for (pp, cc), vv in list(versions.items()):
+                            if pp == p and cc[0] == 'E' and cc[2] == c[2] and cc[3] == c[3]:
+                                c = cc
+                    v = versions.get((p, c), -2)
+                    me = s.me()
+                    s.log(ev='deliver', c=self.name, p=p, pm=p.split(':')[0], v=v,
+                          by='snap' if me is not None and me.name.startswith('r_') else 'bcast')
+
+        conns = {c: VConn(c, w) for c in ('c1', 'c2')}
+        for c in conns.values():
+            disp.add_connection(c)
+        # initial state = version 0 of everything; both connections activate before the workers start
+        for p in w.params:
+            mod = w.mods[p.split(':')[0]]
+            pobj = mod.parameters[p.split(':')[1].lstrip('_')]
+            versions[p, content(pobj)] = 0
+            s.log(ev='seed', p=p, v=0)
+
+        def driver_read(pname):
+            kind, val = script.get((s.me().name, pname), ('ok', 0.0))
+            if kind == 'raise':
+                raise HardwareError(val)
+            return val
+
+        ready = ds.DEvent()
+
+        def activator():
+            for cname, conn in conns.items():
+                s.log(ev='req', c=cname, kind='activate', scope='.', sm='.')
+                rep = disp.handle_request(conn, ('activate', None, None))
+                conn.send_reply(rep)
+                s.log(ev='reply', c=cname, kind='activate', scope='.', sm='.', params=scope_params(None))
+            s.setup_phase = False
+            ready.set()
+
+        def worker(ops):
+            ready.wait()
+            for op, pname, arg in ops:
+                try:
+                    if op == 'assign':
+                        setattr(m, pname, arg)
+                    elif op == 'announce_err':
+                        m.announceUpdate(pname, None, RangeError(arg))
+                    elif op == 'announce':
+                        m.announceUpdate(pname, arg)
+                    elif op == 'write':
+                        getattr(m, 'write_' + pname)(arg)
+                    elif op == 'read_err':
+                        m.announceUpdate(pname, None, HardwareError(arg))
+                    elif op == 'tick':
+                        s.sleep(arg)
+                except ds.SchedAbort:
+                    raise
+                except Exception:
+                    pass
+
+        s.setup_phase = True
+        s.spawn('r_act', activator)
+        for k, ops in enumerate(sc['workers']):
+            s.spawn(f'u{k + 1}', worker, ops)
+        s.run()
+    ev = s.events
+    ev.append({'ev': 'quiet', 'params': [{'p': p, 'pm': p.split(':')[0]} for p in w.params],
+               'seq': len(ev), 'th': 'ctl', 'vt': s.now})
+    return {'events': ev, 'deadlock': s.deadlock, 'livelock': s.livelock,
+            'choices': [c for _, c in s.choices], 'raw_choices': list(s.choices),
+            'thread_exc': {n: repr(t.exc) for n, t in s.threads.items() if t.exc is not None}}
